@@ -69,6 +69,15 @@ def _log_session(ctx, driver, spec, new, res):
 def run_session(ctx, driver, files, spec, timeout=60.0):
     """files: durable state {relpath: bytes|str}.  -> (new_files (bytes), result)"""
     new, res = _run_session(ctx, driver, files, spec, timeout)
+    k = (spec.get("fmt") or {}).get("kind", "black")
+    if k != "black":
+        # injected formatter states count as faults / stubs that really ran (one per session they were active in)
+        ctx.fired("formatter_state:" + (k if k != "cmd" else "cmd:" + spec["fmt"].get("stub", "black")))
+    if spec.get("env"):
+        for name in spec["env"]:
+            ctx.fired("env_seam:" + ("CI-variable" if name in drivers.CI_VARS else name))
+    if spec.get("xdist"):
+        ctx.fired("xdist_workers")
     _log_session(ctx, driver, spec, new, res)
     return new, res
 
